@@ -18,15 +18,15 @@ checks["C01"] = (TV,
     "real front-end + Bash back-end executed symbolically from SSA on scalar program shapes (symbolic 64-bit literals, "
     "operator choices, neutral string bytes); the emitted script is interpreted by ShSem and compared, for all values on "
     "each path, with RefTSH's evaluation of the same AST (stdout, exit status, stderr); unsat on every path within the shapes/bounds; "
-    "curated shapes plus 40 (quick) / 6000 (thorough) programs from a typed generator (seeded by VERIF_SEED)",
+    "curated shapes plus 200 (quick) / 6000 (thorough) programs from a typed generator (seeded by VERIF_SEED)",
     trust_sh, tech_sh)
 checks["C02"] = (TV,
     "as C01 on function/frame shapes: by-value/by-reference parameters, name reuse across frames, global writes from "
     "functions, multi-value returns (also into mixed global/local targets), nested calls (also as statement), empty-string arguments, "
-    "simultaneous assignment in every operand form; plus 30 (quick) / 5000 (thorough) generated programs with functions", trust_sh, tech_sh)
+    "simultaneous assignment in every operand form; plus 150 (quick) / 5000 (thorough) generated programs with functions", trust_sh, tech_sh)
 checks["C03"] = (TV,
     "as C01 on slice/string shapes: growth with symbolic indices 0..12, aliasing, range, copy, substrings with symbolic "
-    "bounds and symbolic string bytes, copy into global/local/parameter destinations inside functions, nested range over non-variable operands", trust_sh, tech_sh)
+    "bounds and symbolic string bytes, copy into global/local/parameter destinations inside functions, nested range over non-variable operands; plus 100 (quick) / 4000 (thorough) generated programs with slices", trust_sh, tech_sh)
 checks["C04"] = (TV,
     "as C02 with tracer functions at every operand position; the printed trace must equal the reference's left-to-right, "
     "exactly-once, eager order for all steering values", trust_sh,
